@@ -379,6 +379,10 @@ def gen_C20(seed):
     if not any(o["op"] == "integrate" for o in ops):
         ops.append({"op": "integrate"})
     scn["ops"] = ops
+    rw = sub(seed, "prewrap")
+    if rw.random() < 0.15 and s.get("jac", "none") != "attr":
+        # the right-hand side reaches the system already wrapped (DiffRHS / rhs_prettifier) and already used
+        s["prewrapped"] = {"rhs_calls": rw.choice([1, 2, 3, 7]), "jac_calls": rw.choice([0, 0, 1, 2])}
     # faults: at most a few, inside ops that do work
     rf = sub(seed, "faults")
     iops = [i for i, o in enumerate(ops) if o["op"] == "integrate"]
@@ -493,6 +497,13 @@ def gen_C19(seed):
             cur = op["t"]
         ops.append(op)
     scn["ops"] = ops
+    re_ = sub(seed, "events")
+    if re_.random() < 0.3:
+        # monitored (non-terminal) events: the system keeps step interpolants for root finding even when dense output is off
+        scn["events"] = gen_events(re_, scn, re_.choice([1, 2]), terminal_prob=0.0, kinds=("state", "time"))
+        for op in ops:
+            if re_.random() < 0.8:
+                op["events"] = list(range(len(scn["events"])))
     rf = sub(seed, "faults")
     if rf.random() < 0.2:
         i = rf.randrange(len(ops))
@@ -723,6 +734,11 @@ def gen_EV(seed, profile):
         e["scale"] = sc
     if profile == "C09" and not any(e["terminal"] for e in evs):
         evs[r.randrange(len(evs))]["terminal"] = True
+    rt_ = sub(seed, "terminal")
+    if profile == "C08" and len(evs) >= 2 and rt_.random() < 0.2:
+        # one terminal event that is NOT the last entry of the list: the step that is cut at its root still has to report the
+        # crossings of the functions listed after it
+        evs[rt_.randrange(len(evs) - 1)]["terminal"] = True
     if profile in ("C07", "C08") and r.random() < 0.25:
         # the same level set watched by a second event function at another scale: coincident crossings of different functions
         src = dict(r.choice(evs))
